@@ -96,10 +96,15 @@ def new_cell(m, lines, name, k):
     lines.append("cell add %s poly %s.p" % (h, h))
     lines.append("label new %s.l %s %d %d 0 0 0 0 1 0" % (h, hx("t"), t2[0], t2[1]))
     lines.append("cell add %s label %s.l" % (h, h))
-    lines.append("fp new %s.f 0 0 1 0.01 0 1 1 0 %d %d" % (h, t3[0], t3[1]))
+    # a three-element flexible path and a two-element robust path, every element on its own tag (remaps that swap or
+    # chain tags must treat each element independently)
+    lines.append("fp new %s.f 0 0 3 0.01 0 1 1 0 %d %d 1 2 %d %d 1 -2 %d %d" % (h, t3[0], t3[1], t1[0], t1[1], t2[0], t2[1]))
     lines.append("fp seg %s.f 0 1 5 0 - -" % h)
     lines.append("cell add %s fp %s.f" % (h, h))
-    m.cells[h] = {"name": name, "ptags": [list(t1)], "ltags": [list(t2)], "ftags": [list(t3)], "refs": []}
+    lines.append("rp new %s.r 0 0 2 0.01 1000 0 1 1 1 %d %d 1 -1 %d %d" % (h, t2[0], t2[1], t3[0], t3[1]))
+    lines.append("rp seg %s.r 0 5 0 - -" % h)
+    lines.append("cell add %s rp %s.r" % (h, h))
+    m.cells[h] = {"name": name, "ptags": [list(t1)], "ltags": [list(t2)], "ftags": [list(t3), list(t1), list(t2), list(t2), list(t3)], "refs": []}
     m.used_names.add(name)
     return h
 
@@ -438,7 +443,7 @@ def check(ctx, case):
                     fail("references of cell %s (%r): %s; model %s" % (c["ptr"], nm, refs, want["refs"]), want["refs"], refs)
                 pt = sorted(tuple(p["tag"]) for p in c["polygons"])
                 lt = sorted(tuple(l["tag"]) for l in c["labels"])
-                ft = sorted(tuple(el["tag"]) for f in c["flexpaths"] for el in f["elements"])
+                ft = sorted([tuple(el["tag"]) for f in c["flexpaths"] for el in f["elements"]] + [tuple(el["tag"]) for f in c["robustpaths"] for el in f["elements"]])
                 if pt != want["ptags"] or lt != want["ltags"] or ft != want["ftags"]:
                     fail("element tags of cell %s (%r): polygons %s labels %s paths %s; model %s %s %s" % (c["ptr"], nm, pt, lt, ft, want["ptags"], want["ltags"], want["ftags"]))
             for r in d["rawcells"]:
